@@ -16,9 +16,12 @@ import (
 	"context"
 	"errors"
 	"fmt"
+	"runtime"
 	"sort"
 	"strconv"
 	"strings"
+	"sync"
+	"time"
 
 	"github.com/shpandrak/shpanstream/stream"
 )
@@ -71,6 +74,7 @@ func fmtPvs(l []pv) string {
 var errInjected = errors.New("injected-fault")
 
 type pworld struct {
+	mu        sync.Mutex
 	calls     int
 	faultPos  int
 	faultKind string
@@ -81,6 +85,8 @@ type pworld struct {
 }
 
 func (w *pworld) ev(r int, c byte) {
+	w.mu.Lock()
+	defer w.mu.Unlock()
 	if _, ok := w.events[r]; !ok {
 		w.ids = append(w.ids, r)
 	}
@@ -90,9 +96,12 @@ func (w *pworld) ev(r int, c byte) {
 
 // call takes the next call position; returns an error to return, or panics, per the fault plan.
 func (w *pworld) call() error {
+	w.mu.Lock()
 	pos := w.calls
 	w.calls++
-	if w.faultKind != "" && pos == w.faultPos {
+	hit := w.faultKind != "" && pos == w.faultPos
+	w.mu.Unlock()
+	if hit {
 		switch w.faultKind {
 		case "err":
 			return errInjected
@@ -293,6 +302,15 @@ func applyPred(name string, v pv) bool {
 	panic("bad pred " + name)
 }
 
+// withPrev: what the sum / firstk factories return: [sum] followed by lastItemOnPreviousCluster (if any)
+func withPrev(sum int64, last *pv) pv {
+	out := []int64{sum}
+	if last != nil {
+		out = append(out, last.flat()...)
+	}
+	return pv{IsArr: true, A: out}
+}
+
 func flattenRow(row []pv) pv {
 	out := []int64{}
 	for _, v := range row {
@@ -330,6 +348,18 @@ func (p *pparser) pipe() stream.Stream[pv] {
 			}
 			return applyPred(pr, v), nil
 		})
+	case "buffered":
+		n := p.int()
+		return stream.Buffered(p.pipe(), n)
+	case "cmap":
+		c := p.int()
+		fn := p.next()
+		return stream.MapWithErr(p.pipe(), func(v pv) (pv, error) {
+			if err := w.call(); err != nil {
+				return pv{}, err
+			}
+			return applyFn(fn, v), nil
+		}, stream.WithConcurrentMapOption(c))
 	case "limit":
 		n := p.int()
 		return p.pipe().Limit(n)
@@ -377,7 +407,7 @@ func (p *pparser) pipe() stream.Stream[pv] {
 						}
 						return acc
 					})
-					return pv{I: s}, err
+					return withPrev(s, last), err
 				case "firstk":
 					j, _ := strconv.Atoi(arg)
 					items, err := cs.Limit(j).Collect(ctx)
@@ -390,7 +420,7 @@ func (p *pparser) pipe() stream.Stream[pv] {
 							s += x
 						}
 					}
-					return pv{I: s}, nil
+					return withPrev(s, last), nil
 				case "none":
 					return pv{I: cls}, nil
 				case "firstprev":
@@ -440,6 +470,9 @@ func execPipe(caseText string) (obs string) {
 			obs = fmt.Sprintf("harness-panic %v", rv)
 		}
 	}()
+	async := strings.HasPrefix(caseText, "ASYNC ")
+	caseText = strings.TrimPrefix(caseText, "ASYNC ")
+	baseGoroutines := runtime.NumGoroutine()
 	parts := strings.Split(caseText, " || ")
 	w := &pworld{events: map[int][]byte{}}
 	pp := &pparser{toks: strings.Fields(parts[0]), w: w}
@@ -490,9 +523,38 @@ func execPipe(caseText string) (obs string) {
 				return nil
 			})
 		default:
-			return "bad-case"
+			if !strings.HasPrefix(f[0], "cuser:") {
+				return "bad-case"
+			}
+			c, cerr := strconv.Atoi(strings.TrimPrefix(f[0], "cuser:"))
+			if cerr != nil {
+				return "bad-case"
+			}
+			var dmu sync.Mutex
+			err = target.ConsumeWithErr(ctx, func(v pv) error {
+				if e := w.call(); e != nil {
+					return e
+				}
+				dmu.Lock()
+				delivered = append(delivered, v)
+				dmu.Unlock()
+				return nil
+			}, stream.WithConcurrentConsumeOption(c))
+		}
+		leak := 0
+		if async {
+			// closes of asynchronous stages are due once the library's goroutines have quiesced
+			deadline := time.Now().Add(3 * time.Second)
+			for runtime.NumGoroutine() > baseGoroutines && time.Now().Before(deadline) {
+				time.Sleep(200 * time.Microsecond)
+			}
+			leak = runtime.NumGoroutine() - baseGoroutines
+			if leak < 0 {
+				leak = 0
+			}
 		}
 		cancel()
+		w.mu.Lock()
 		sort.Ints(w.ids)
 		var evs []string
 		for _, r := range w.ids {
@@ -502,7 +564,14 @@ func execPipe(caseText string) (obs string) {
 		if evStr == "" {
 			evStr = "-"
 		}
-		outs = append(outs, fmt.Sprintf("%s %s | calls=%d pre=%d | %s", classifyErr(err), fmtPvs(delivered), w.calls, pre, evStr))
+		if async {
+			// delivery order of concurrent stages is not part of any property: canonical = sorted
+			sort.Slice(delivered, func(i, j int) bool { return delivered[i].String() < delivered[j].String() })
+			outs = append(outs, fmt.Sprintf("%s %s | calls=%d pre=%d | %s | leak=%d", classifyErr(err), fmtPvs(delivered), w.calls, pre, evStr, leak))
+		} else {
+			outs = append(outs, fmt.Sprintf("%s %s | calls=%d pre=%d | %s", classifyErr(err), fmtPvs(delivered), w.calls, pre, evStr))
+		}
+		w.mu.Unlock()
 		pre = 0
 	}
 	return strings.Join(outs, " || ")
